@@ -13,24 +13,24 @@ import (
 )
 
 type Obligation struct {
-	Name                      string
-	Func                      string
-	Tags                      []string
-	Hyps                      []*Term
-	Goal                      *Term
-	Where                     string
-	Kind                      string // requires, ensures, establish, preserve, assert, bounds, ownership, frame, ...
-	Result                    string // unsat (discharged) / sat / unknown / timeout / static-ok / static-fail
-	Solver                    string
-	Time                      float64
-	Model                     string
-	CandModel                 string // model of the quantifier-free relaxation (candidate counterexample)
-	Static                    bool   // decided syntactically
-	ShortTimeout              bool
+	Name                                      string
+	Func                                      string
+	Tags                                      []string
+	Hyps                                      []*Term
+	Goal                                      *Term
+	Where                                     string
+	Kind                                      string // requires, ensures, establish, preserve, assert, bounds, ownership, frame, ...
+	Result                                    string // unsat (discharged) / sat / unknown / timeout / static-ok / static-fail
+	Solver                                    string
+	Time                                      float64
+	Model                                     string
+	CandModel                                 string // model of the quantifier-free relaxation (candidate counterexample)
+	Static                                    bool   // decided syntactically
+	ShortTimeout                              bool
 	smtSliced, smtFull, smtQF, smtLin, smtANL string
 	anl                                       bool // render with nonlinear operations abstracted
 	Cone                                      bool // belongs to a callee verified because the property rests on its contract
-	Detail                    string
+	Detail                                    string
 }
 
 type flowKind int
@@ -79,7 +79,7 @@ type Engine struct {
 	callArgs     map[string][][]Value // results of contract calls by callee name (spec: res(Callee_Name, i))
 	dynType      map[string]types.Type
 	ncalledDirty map[string]bool // call counters changed inside a cut loop: unknown afterwards
-	importAll    bool // refinement checks see every offer of the implementation
+	importAll    bool            // refinement checks see every offer of the implementation
 	arrayMode    bool
 	usedNilChan  bool
 	loopDepth    int
@@ -857,7 +857,14 @@ func (e *Engine) binop(op string, l, r *Term, resT types.Type, st *State, where 
 		if l.Sort == SStr {
 			unsup("string concatenation at %s", where)
 		}
-		return mkArith(op, l, r)
+		res := mkArith(op, l, r)
+		if n, ok := resT.(*types.Named); ok && n.Obj().Pkg() != nil && n.Obj().Pkg().Path() == "time" && n.Obj().Name() == "Duration" && res.Op != "int" {
+			// time.Duration is an int64 count of nanoseconds: a product or sum that leaves the range wraps around
+			// (about 292 years), turning a long wait or a long look-back window into a negative one
+			lim := new(big.Int).Lsh(big.NewInt(1), 63)
+			e.assert(st, mkAnd(mkCmp("<=", mkBigInt(new(big.Int).Neg(lim)), res), mkCmp("<", res, mkBigInt(lim))), "duration-in-int64-range", where, nil)
+		}
+		return res
 	case "/":
 		l, r = numUnify(l, r)
 		if l.Sort == SInt {
